@@ -2,7 +2,7 @@
 //@ append src/xargs/mod.rs
 //@ module verif_enum_xargs
 //@ harness e_ws_reader kind=enum props=C05 thorough_bound=<<every input of 0..=5 symbols over {a, blank, newline, ', ", backslash, e-acute (2 bytes)} x every way of cutting it into read() chunks>> bound=<<every input of 0..=4 symbols over {a, blank, newline, ', ", backslash, e-acute and a-grave (2 bytes each; 0xA0 is the second byte of a-grave), vertical tab, the invalid UTF-8 byte 0xFF} x every way of cutting it into read() chunks>> label=<<WhitespaceDelimitedArgumentReader yields exactly the arguments of the statement's tokenizer (unquoted blanks/newlines split, quotes literal, backslash quotes one byte, '' is an empty argument, unterminated quote is an error), each marked as ending a line iff a newline terminated it, whatever the read() chunking>>
-//@ harness e_byte_reader kind=enum props=C05,C07 thorough_bound=<<every input of 0..=5 symbols over {a, blank, newline, ', backslash, NUL, e-acute (2 bytes)} x delimiter NUL or newline x every way of cutting it into read() chunks>> bound=<<every input of 0..=4 symbols over {a, blank, newline, ', backslash, NUL, e-acute (2 bytes), the invalid UTF-8 byte 0xFF} x delimiter NUL or newline x every way of cutting it into read() chunks>> label=<<ByteDelimitedArgumentReader yields exactly the non-empty delimiter-separated fields, byte for byte (no quote processing, multi-byte characters intact across chunk edges), in order, then None>>
+//@ harness e_byte_reader kind=enum props=C05,C07 thorough_bound=<<every input of 0..=5 symbols over {a, blank, newline, ', backslash, NUL, e-acute (2 bytes), 0xFF, carriage return} x delimiter NUL or newline x every way of cutting it into read() chunks>> bound=<<every input of 0..=4 symbols over {a, blank, newline, ', backslash, NUL, e-acute (2 bytes), the invalid UTF-8 byte 0xFF, carriage return} x delimiter NUL or newline x every way of cutting it into read() chunks>> label=<<ByteDelimitedArgumentReader yields exactly the non-empty delimiter-separated fields, byte for byte (no quote processing, multi-byte characters intact across chunk edges), in order, then None>>
 //@ harness e_byte_reader_long kind=enum props=C05,C07,C20 bound=<<inputs of 1..=3 fields over {a, a field of 140000 bytes, a field of 20000 bytes, empty} separated by NUL, with and without a final NUL, read through the reader's own buffering>> label=<<a field reaches the command whole however long it is: ByteDelimitedArgumentReader never splits, truncates or merges fields>>
 //@ harness e_system_budget kind=enum props=C06,C04 bound=<<environments of 0..=3 variables whose names and values have 0, 1 or 5 bytes (also multi-byte characters)>> label=<<the system limiter's budget is ARG_MAX - 2048 - the bytes execve charges for the environment: every NAME=value string with its terminating NUL>>
 //@ harness e_null_items kind=enum props=C07,C20 bound=<<two items over {a, ' d', 'e ', f<newline>g, -h, 'q' in quotes, tab-led} separated by NUL x plain xargs -0 CMD or xargs -0 -I{} CMD {}; real processes>> label=<<xargs -0 hands every NUL-terminated item to the command as exactly one unmodified argument (leading and trailing blanks, newlines and quotes included), with or without -I>>
@@ -13,6 +13,7 @@
 //@ harness e_cannot_run kind=enum props=C19 bound=<<commands: missing, file without execute permission, directory, executable file that is no program (ENOEXEC), dangling path through a non-directory (ENOTDIR)>> label=<<a command that cannot be found gives 127, one that exists but cannot be executed gives 126, whatever the errno>>
 //@ harness e_replace kind=enum props=C20 bound=<<replacement strings {} / ab / RR; one initial argument of 1..=3 pieces over {R, first character of R, x}; input lines "l", "a b", a line containing R, and lines ending in a blank or a tab; real processes recording their argv>> label=<<xargs -I R runs the command once per input line with every occurrence of R in the initial argument replaced by the whole line and nothing appended>>
 //@ harness e_delimiter_select kind=enum props=C05 bound=<<one of -0, --null, -d ',', --delimiter=';', or a NUL option and a delimiter option in either order x an input with blanks, a double quote, a single quote, a newline, ',' and ';' (and a NUL when NUL is the delimiter in effect); real processes recording their argv>> label=<<when several of -0/--null/-d/--delimiter are given the one given last names the single byte the input is split at; no quote, blank or newline processing takes place and every other byte reaches the command unchanged>>
+//@ harness e_limit_override kind=enum props=C04,C20 bound=<<-L N and -n M given together in either order, (N, M) in {(1,3), (2,1), (1,1), (2,4)}, on the input 'a b / c d / e f' (three lines of two); real processes recording their argv>> label=<<of -L and -n only the one given last limits the batches: an overridden limit has no effect at all, so batches are as large as the limit in force allows (not cut at line ends when -n is in force, not cut after M arguments when -L is)>>
 // Exhaustive native enumeration (tools/kani_lane.py, kind=enum): the REAL readers / xargs_main, compiled by plain rustc, are run on
 // every input of the stated domain and compared with an executable transcription of the property statement.
 #[cfg(verif_replay)]
@@ -84,7 +85,7 @@ mod verif_enum_xargs {
     #[test] fn e_ws_reader() { kani::explore(ws_body) }
 
     fn byte_body() {
-        let data = stream(&[b"a", b" ", b"\n", b"'", b"\\", b"\0", "\u{e9}".as_bytes(), b"\xff"], if deep() { 5 } else { 4 });
+        let data = stream(&[b"a", b" ", b"\n", b"'", b"\\", b"\0", "\u{e9}".as_bytes(), b"\xff", b"\r"], if deep() { 5 } else { 4 });
         let d = [0u8, b'\n'][pick(2)];
         let c = cuts(data.len());
         let want: Vec<Vec<u8>> = data.split(|&b| b == d).filter(|f| !f.is_empty()).map(|f| f.to_vec()).collect();
@@ -412,4 +413,32 @@ mod verif_enum_xargs {
         assert!(rc == 0 && got == want, "the input is not split at the byte named by the last delimiter option, and only there");
     }
     #[test] fn e_delimiter_select() { kani::explore(delimiter_select_body) }
+
+    fn limit_override_body() {
+        let (nl, na) = [(1usize, 3usize), (2, 1), (1, 1), (2, 4)][pick(4)];
+        let l_last = pick(2) == 1;
+        let d = scratch("lovr");
+        let (inp, log) = (d.join("in"), d.join("log"));
+        fs::write(&inp, "a b\nc d\ne f\n").unwrap();
+        fs::write(&log, "").unwrap();
+        let script = format!("for a; do printf '<%s>' \"$a\" >> '{l}'; done; echo >> '{l}'", l = log.display());
+        let (lo, no) = (format!("-L{nl}"), format!("-n{na}"));
+        let mut args: Vec<&str> = vec!["xargs", "-a", inp.to_str().unwrap()];
+        if l_last { args.push(&no); args.push(&lo); } else { args.push(&lo); args.push(&no); }
+        args.extend_from_slice(&["sh", "-c", &script, "sh"]);
+        let rc = xargs_main(&args);
+        let got = fs::read_to_string(&log).unwrap();
+        let _ = fs::remove_dir_all(&d);
+        let lines_in: [&[&str]; 3] = [&["a", "b"], &["c", "d"], &["e", "f"]];
+        let mut want = String::new();
+        if l_last {
+            for ch in lines_in.chunks(nl) { for l in ch { for a in l.iter() { want.push_str(&format!("<{a}>")); } } want.push('\n'); }
+        } else {
+            let all: Vec<&str> = lines_in.iter().flat_map(|l| l.iter().copied()).collect();
+            for ch in all.chunks(na) { for a in ch { want.push_str(&format!("<{a}>")); } want.push('\n'); }
+        }
+        if got != want || rc != 0 { eprintln!("  input xargs {} {} on three lines of two arguments: exit {rc}\n  input argv recorded {got:?}\n  input expected      {want:?}", if l_last { &no } else { &lo }, if l_last { &lo } else { &no }); }
+        assert!(rc == 0 && got == want, "the limit given last alone decides the batches");
+    }
+    #[test] fn e_limit_override() { kani::explore(limit_override_body) }
 }
